@@ -136,7 +136,7 @@ Definition interp (f : frame) (x : call) : result :=
        | KRaw => ROk (f_payload f)
        | _ => if Nat.eqb (f_payload f) 0 then ROk 0
               else if negb (f_codec_ok f) then RCodecErr
-              else if negb (f_decodable f) then RDecodeErr
+              else if negb (f_decodable f) || c_oneway x then RDecodeErr  (* one-way: Reply is nil *)
               else ROk (f_payload f)
        end.
 
